@@ -225,6 +225,28 @@ func domainCallOK(c *fw.Ctx, fn *ssa.Function, call ssa.CallInstruction) (bool, 
 	if used {
 		return true, "only registered as the create-event rule of versions with domain-ful room ids"
 	}
+	// a helper that only such column functions call
+	if fn.Object() != nil && !fn.Object().Exported() {
+		callers := 0
+		okAll := true
+		for _, f := range c.P.SrcFuncs() {
+			if f == fn {
+				continue
+			}
+			for _, cs := range fw.Calls(f) {
+				if cs.Common().StaticCallee() != fn {
+					continue
+				}
+				callers++
+				if ok, _ := domainCallOK(c, f, cs); !ok {
+					okAll = false
+				}
+			}
+		}
+		if callers > 0 && okAll {
+			return true, fmt.Sprintf("only called (%d sites) from create-event rules of versions with domain-ful room ids", callers)
+		}
+	}
 	return false, "not a version-table column: the room id may be domainless"
 }
 
